@@ -224,19 +224,33 @@ type strmT struct {
 }
 
 func (s *strmT) OnReceive(ctx context.Context, headers api.HeaderMap, data buffer.IoBuffer, trailers api.HeaderMap) {
+	if h := streamHook; h != nil {
+		h("OnReceive")
+	}
 	atomic.AddInt32(&s.received, 1)
 	s.kick()
 }
 func (s *strmT) OnDecodeError(ctx context.Context, err error, headers api.HeaderMap) {}
 func (s *strmT) OnResetStream(reason types.StreamResetReason) {
+	if h := streamHook; h != nil {
+		h("OnResetStream")
+	}
 	s.mu.Lock()
 	s.resets = append(s.resets, string(reason))
 	s.mu.Unlock()
 }
 func (s *strmT) OnDestroyStream() {
+	if h := streamHook; h != nil {
+		h("OnDestroyStream")
+	}
 	atomic.AddInt32(&s.destroys, 1)
 	s.kick()
 }
+
+// streamHook, if set (accounting.go, property C10), is called at the start of every callback the
+// stream layer makes into the harness' stream listener / receiver. nil in the C09 units.
+var streamHook func(where string)
+
 func (s *strmT) kick() {
 	select {
 	case s.sig <- struct{}{}:
@@ -485,7 +499,12 @@ func (w *world) apply(ev string) (outcome string) {
 		if w.d.Kind() == PingPong {
 			taint(s.c, "remote-reset")
 		}
-		if !w.inject(s.c, w.d.GarbageBytes()) {
+		gb := w.d.GarbageBytes()
+		if rd, ok := w.d.(interface{ ResetBytes(req []byte) []byte }); ok {
+			// (C10 drivers) a protocol whose peer can reset ONE stream (HTTP/2 RST_STREAM): the frame names the stream
+			gb = rd.ResetBytes(s.reqBytes())
+		}
+		if !w.inject(s.c, gb) {
 			return "bad"
 		}
 		w.waitFor(fmt.Sprintf("stream %d to be destroyed after a garbage response", s.ord), s, func() bool { return atomic.LoadInt32(&s.destroys) >= 1 })
